@@ -197,12 +197,15 @@ func c18Env(kind int, s *core.Sched) *stick.Env {
 	env.Filters["up"] = func(ctx stick.Context, val stick.Value, args ...stick.Value) stick.Value {
 		return strings.ToUpper(stick.CoerceString(val))
 	}
-	for name, f := range env.Filters {
-		f := f
-		env.Filters[name] = func(ctx stick.Context, val stick.Value, args ...stick.Value) stick.Value {
-			s.Point()
-			return f(ctx, val, args...)
+	if _, done := env.Filters["c18-wrapped"]; !done { // (were the table ever shared between environments, wrap it once only)
+		for name, f := range env.Filters {
+			f := f
+			env.Filters[name] = func(ctx stick.Context, val stick.Value, args ...stick.Value) stick.Value {
+				s.Point()
+				return f(ctx, val, args...)
+			}
 		}
+		env.Filters["c18-wrapped"] = func(ctx stick.Context, val stick.Value, args ...stick.Value) stick.Value { return val }
 	}
 	return env
 }
@@ -369,6 +372,34 @@ func c18Race(c core.Case) core.Result {
 	iters := 12
 	base := c18Epoch.Add(int64(iters)) - int64(iters)
 	results := make([][]string, n)
+	// meanwhile the host builds and configures OTHER environments (one per request, say): nothing they do may
+	// touch the environment under test
+	stop := make(chan struct{})
+	var builder sync.WaitGroup
+	builder.Add(1)
+	go func() {
+		defer builder.Done()
+		for i := 0; ; i++ {
+			select {
+			case <-stop:
+				return
+			default:
+			}
+			var other *stick.Env
+			if kind == 1 {
+				other = stick.New(nil)
+			} else {
+				other = twig.New(nil)
+			}
+			other.Filters["up"] = func(ctx stick.Context, val stick.Value, args ...stick.Value) stick.Value { return "OTHER" }
+			other.Filters["other"+itoa(i%7)] = other.Filters["up"]
+			other.Functions["f"] = func(ctx stick.Context, args ...stick.Value) stick.Value { return "OTHER" }
+			other.Tests["t"] = func(ctx stick.Context, val stick.Value, args ...stick.Value) bool { return true }
+			other.Visitors = append(other.Visitors, &c18Visitor{nil})
+			var sink bytes.Buffer
+			other.Execute("{{ 'a'|up }}{{ 1 + 1 }}", &sink, nil)
+		}
+	}()
 	for g := 0; g < n; g++ {
 		g := g
 		wg.Add(1)
@@ -384,6 +415,8 @@ func c18Race(c core.Case) core.Result {
 		}()
 	}
 	wg.Wait()
+	close(stop)
+	builder.Wait()
 	solo := map[[2]int]string{}
 	for i, op := range ops {
 		for v := 0; v < 3; v++ {
